@@ -5,7 +5,7 @@
    dRdAngleX_/Y_/Z_ exactly as the code fills them;  extraX = Rz*Ry*E00, extraY = Rz*E11*Rx, extraZ = E22*Ry*Rx. *)
 From Coq Require Import Reals ZArith Lra Bool.
 From Coquelicot Require Import Coquelicot.
-From Romea Require Import Num NumR AnglesModel AnglesProofs AnglesRoundtrip PoseCovModel PoseCovProofs DerivProofs PoseJacProofs.
+From Romea Require Import Num NumR AnglesModel AnglesProofs AnglesRoundtrip PoseCovModel PoseCovProofs DerivProofs PoseJacProofs PoseJacDeriv.
 Local Open Scope R_scope.
 
 (* --- the true derivatives of the reported rotation matrix, entry by entry, in each angle --- *)
@@ -82,6 +82,40 @@ Theorem C12_pose_dS_true : forall x y z,
 Proof. exact dSd_of_true. Qed.
 Print Assumptions C12_pose_dS_true.
 
+(* --- repaired code: J is the Jacobian of the library's own pose map (position' = l*p + t, angles' = angles of l*Rz*Ry*Rx).
+       Position block = l (full).  Angular block = derivatives of the extracted angles (raw_roll = atan2(M21,M22),
+       raw_pitch = -asin(M20), raw_yaw = atan2(M10,M00), i.e. before between0And2Pi, which is piecewise a constant shift)
+       in roll, pitch, yaw.  PARTIAL: proved where M22 > 0 and M00 > 0 (transformed roll and yaw inside (-pi/2,pi/2), where
+       atan2 = atan(y/x)); what is missing is the same statement on the other atan2 charts (the formula is chart
+       independent; the oracle covers all quadrants numerically). --- *)
+Theorem C12_pose_jacobian_angular_partial : forall l x y z,
+  0 < m22 (Mrot l x y z) -> 0 < m00 (Mrot l x y z) -> Rabs (m20 (Mrot l x y z)) < 1 ->
+  let J := pose_J_angular ROps l (mkV3 x y z) in
+  (is_derive (fun t => raw_roll (Mrot l t y z)) x (m00 J) /\ is_derive (fun t => raw_pitch (Mrot l t y z)) x (m10 J) /\
+   is_derive (fun t => raw_yaw (Mrot l t y z)) x (m20 J)) /\
+  (is_derive (fun t => raw_roll (Mrot l x t z)) y (m01 J) /\ is_derive (fun t => raw_pitch (Mrot l x t z)) y (m11 J) /\
+   is_derive (fun t => raw_yaw (Mrot l x t z)) y (m21 J)) /\
+  (is_derive (fun t => raw_roll (Mrot l x y t)) z (m02 J) /\ is_derive (fun t => raw_pitch (Mrot l x y t)) z (m12 J) /\
+   is_derive (fun t => raw_yaw (Mrot l x y t)) z (m22 J)).
+Proof. exact pose_J_angular_is_jacobian. Qed.
+Print Assumptions C12_pose_jacobian_angular_partial.
+
+Theorem C12_pose_jacobian_blocks : forall l ori (t p : vec3 R),
+  (forall i j, (i < 3)%nat -> (j < 3)%nat -> pose_J ROps l ori i j = mget3 l i j) /\
+  (forall i j, (i < 3)%nat -> (j < 3)%nat -> pose_J ROps l ori i (3 + j)%nat = 0 /\ pose_J ROps l ori (3 + i)%nat j = 0) /\
+  (forall i j, (i < 3)%nat -> (j < 3)%nat -> pose_J ROps l ori (3 + i)%nat (3 + j)%nat = mget3 (pose_J_angular ROps l ori) i j) /\
+  (forall i j, is_derive (fun s => vget3 (vadd3 ROps (mvmul3 ROps l
+      (match j with 0%nat => mkV3 s (v1 p) (v2 p) | 1%nat => mkV3 (v0 p) s (v2 p) | _ => mkV3 (v0 p) (v1 p) s end)) t) i)
+    (vget3 p j) (mget3 l i j)).
+Proof.
+  intros l ori t p. split; [|split; [|split]].
+  - intros i j Hi Hj. destruct (lt3_cases i Hi) as [E|[E|E]]; subst i; destruct (lt3_cases j Hj) as [E|[E|E]]; subst j; reflexivity.
+  - intros i j Hi Hj. destruct (lt3_cases i Hi) as [E|[E|E]]; subst i; destruct (lt3_cases j Hj) as [E|[E|E]]; subst j; split; reflexivity.
+  - intros i j Hi Hj. destruct (lt3_cases i Hi) as [E|[E|E]]; subst i; destruct (lt3_cases j Hj) as [E|[E|E]]; subst j; reflexivity.
+  - exact (pose_J_position l t p).
+Qed.
+Print Assumptions C12_pose_jacobian_blocks.
+
 (* --- the attached covariance J*C*J^T stays symmetric positive semi-definite, for any J (any size) --- *)
 Theorem C12_pose_cov_sym_psd : forall (j c : mat R),
   (gsym 6 c -> gsym 6 (pose_cov ROps j c)) /\ (gpsd 6 c -> gpsd 6 (pose_cov ROps j c)) /\
@@ -101,5 +135,10 @@ Proof. exact ls_covariance_diag. Qed.
 Print Assumptions C12_ls_covariance.
 
 (* --- non-vacuity --- *)
+Example C12_ex_jacobian_hyp :   (* identity transform, zero angles: inside the chart *)
+  0 < m22 (Mrot (mid3 ROps) 0 0 0) /\ 0 < m00 (Mrot (mid3 ROps) 0 0 0) /\ Rabs (m20 (Mrot (mid3 ROps) 0 0 0)) < 1.
+Proof.
+  unfold Mrot. rewrite mmul3_id_l, rot_zyx_entries. cbn [m00 m20 m22]. rewrite sin_0, cos_0, Ropp_0, Rabs_R0. lra.
+Qed.
 Example C12_ex_diagonal : gdiagonal 2 (fun i j => if Nat.eqb i j then 3 else 0).
 Proof. intros i j _ _ H. apply Nat.eqb_neq in H. rewrite H. reflexivity. Qed.
